@@ -557,6 +557,21 @@ impl World {
             let d = format!("node {n}: persisted {} >= unstable offset {} after {}", p.persisted, p.unst_offset, kind_name(c.kind));
             return Err(self.violation("C14", "C14.pointers", n, d, "persisted_ge_offset".into()));
         }
+        // "the persisted index never exceeds what stable storage holds with matching terms": where both the
+        // logical log (pending snapshot included) and the storage know the term at `persisted`, they agree
+        {
+            let node = &self.nodes[&n];
+            if let (Some(lt), Ok(st)) = (Self::term_at(node, p.persisted), node.disk.model.term(p.persisted)) {
+                *self.stats.entry("chk.C14.persisted_matches_storage").or_insert(0) += 1;
+                if lt != st {
+                    let d = format!(
+                        "node {n}: persisted index {} has term {lt} in the logical log (pending snapshot at {}) but stable storage holds term {st} there, after {}",
+                        p.persisted, p.snap_index, kind_name(c.kind)
+                    );
+                    return Err(self.violation("C14", "C14.pointers", n, d, "persisted_term_mismatch".into()));
+                }
+            }
+        }
         Ok(())
     }
 
